@@ -448,7 +448,8 @@ def run_check(prop, tier, budget=None, runs=None, seed=None, workers=None, no_mi
         'spoolfaults_fired', 'spawnfaults_fired', 'crashes', 'clean_shutdowns', 'restarts',
         'crash_at_event', 'crash_at_write', 'crash_at_openat', 'crash_at_close', 'crash_at_renameat',
         'crash_at_unlinkat', 'connections_refused', 'wake_late', 'wake_exact', 'wake_stall', 'unseen_replies',
-        'spawns_while_held_up', 'spawns_held_up_a_second_or_more', 'clock_steps_back', 'clock_steps_forward')}
+        'spawns_while_held_up', 'spawns_held_up_a_second_or_more', 'clock_steps_back', 'clock_steps_forward',
+        'executors_stopped_or_continued')}
     ev = {
         'property_id': prop, 'tier': tier, 'seed': base_seed, 'level': cfg['level'],
         'coverage': {
